@@ -10,6 +10,10 @@ For every text (not only the renderings of addresses):
   (`Spec.Rfc.parseMac` / `parseV4` / `parseV6`) calls standard with groups `gs` is accepted by the model's `from_str`
   with exactly those groups.  For IPv6 this covers form 1 and every position and length of the `::` of form 2
   (`v6_accepts_all` is the instance for texts built from group lists).
+* `mac_reference_bad`, `v4_reference_bad`, `v6_reference_bad` — the other direction of the statement: a text the reference
+  parser calls `.bad` (wrong number of groups, a group out of range, for IPv6 also a `::` standing for no group or a
+  second `::`) is refused by the model's `from_str`.  With the `.std` direction this pins the model to the reference
+  wherever the reference speaks; only `.any` texts (signs, stray separators, superfluous zeros …) are left open.
 * Underneath: `split_eq_splitOn` (the reference's splitter is `str::split`), `countDouble_zero_find` /
   `countDouble_pos_find` (the reference's scan for `::` is `str::find`), `hex_digit` / `dec_digit` (every character the
   reference takes for a digit is one for `from_str_radix`, with the same value), `parseUnsigned_good`.
@@ -471,5 +475,291 @@ theorem v6_accepts_all_is_reference (pre post : List (List Char)) (gs : List Nat
     (h : Rfc.parseV6 (joinSep ':' pre ++ ':' :: ':' :: joinSep ':' post) = .std gs) :
     parseV6 (joinSep ':' pre ++ ':' :: ':' :: joinSep ':' post) = some gs :=
   v6_reference_standard _ _ h
+
+
+/-! ## rejected texts: what the reference calls `.bad` the model refuses -/
+
+/-- a group of good digits the group parser accepts is not empty and its reference value is within the type -/
+theorem parseUnsigned_some_good (radix max : Nat) (g : List Char) (h : ∀ c ∈ g, GoodDigit radix c)
+    (hs : parseUnsigned radix max g ≠ none) : g ≠ [] ∧ Rfc.numOf radix g ≤ max := by
+  cases g with
+  | nil => simp [parseUnsigned] at hs
+  | cons c cs =>
+    refine ⟨by simp, ?_⟩
+    have hc := (h c (by simp)).1
+    have hp : c ≠ '+' := by intro e; subst e; simp [digitVal] at hc
+    have hm : c ≠ '-' := by intro e; subst e; simp [digitVal] at hc
+    rw [parseUnsigned_nosign _ _ _ _ hp hm, checkDigits, digitsVal_good radix _ 0 h] at hs
+    simp only [Rfc.numOf]
+    by_cases hle : List.foldl (fun a c => a * radix + Rfc.hexVal c) 0 (c :: cs) ≤ max
+    · exact hle
+    · simp only [if_neg hle] at hs; exact absurd rfl hs
+
+/-- accepted group lists: as many values as groups, no empty group, every reference value within the type -/
+theorem parseAll_some_good (radix max : Nat) (G : List (List Char)) (vs : List Nat)
+    (h : parseAll radix max G = some vs) (hd : ∀ g ∈ G, ∀ c ∈ g, GoodDigit radix c) :
+    vs.length = G.length ∧ ∀ g ∈ G, g ≠ [] ∧ Rfc.numOf radix g ≤ max := by
+  refine ⟨parseAll_length radix max G vs h, fun g hg => ?_⟩
+  apply parseUnsigned_some_good radix max g (hd g hg)
+  intro hb
+  rw [parseAll_none_of_mem radix max G g hg hb] at h
+  cases h
+
+theorem all_chars (isDig : Char → Bool) (sep : Char) (s : List Char)
+    (h : ¬ (!s.all (fun c => isDig c || decide (c = sep))) = true) :
+    s.all (fun c => isDig c || decide (c = sep)) = true := by
+  cases hb : s.all (fun c => isDig c || decide (c = sep)) with
+  | true => rfl
+  | false => rw [hb] at h; exact absurd rfl h
+
+theorem filter_nonempty_of_ne (G : List (List Char)) (h : ∀ g ∈ G, g ≠ []) : G.filter (fun g => !g.isEmpty) = G := by
+  apply List.filter_eq_self.mpr
+  intro g hg
+  have := h g hg
+  cases g with
+  | nil => exact absurd rfl this
+  | cons _ _ => rfl
+
+theorem not_any_wide (radix max : Nat) (G : List (List Char)) (h : ∀ g ∈ G, g ≠ [] ∧ Rfc.numOf radix g ≤ max) :
+    G.any (fun g => decide (Rfc.numOf radix g > max)) = false := by
+  rw [List.any_eq_false]
+  intro g hg
+  have := (h g hg).2
+  simp; omega
+
+/-- **MAC: a text the reference calls bad (wrong number of groups, or a group beyond one octet) is refused** -/
+theorem mac_reference_bad (s : List Char) (h : Rfc.parseMac s = .bad) : parseMac s = none := by
+  cases hp : parseMac s with
+  | none => rfl
+  | some vs =>
+    exfalso
+    simp only [Rfc.parseMac, split_eq_splitOn] at h
+    split at h
+    · cases h
+    · rename_i hchars
+      have hgood := groups_good 16 Rfc.isHex ':' s (fun c hc => hex_digit c hc) (all_chars _ _ _ hchars)
+      simp only [parseMac] at hp
+      split at hp
+      · cases hp
+      · rename_i hlen
+        obtain ⟨_, hg⟩ := parseAll_some_good 16 255 _ vs hp hgood
+        rw [filter_nonempty_of_ne _ (fun g hg' => (hg g hg').1), not_any_wide 16 255 _ hg] at h
+        simp only [Decidable.not_not] at hlen
+        simp [hlen] at h
+        split at h <;> cases h
+
+/-- **IPv4: a text the reference calls bad is refused** -/
+theorem v4_reference_bad (s : List Char) (h : Rfc.parseV4 s = .bad) : parseV4 s = none := by
+  cases hp : parseV4 s with
+  | none => rfl
+  | some vs =>
+    exfalso
+    simp only [Rfc.parseV4, split_eq_splitOn] at h
+    split at h
+    · cases h
+    · rename_i hchars
+      have hgood := groups_good 10 Rfc.isDec '.' s (fun c hc => dec_digit c hc) (all_chars _ _ _ hchars)
+      simp only [parseV4] at hp
+      split at hp
+      · cases hp
+      · rename_i hlen
+        obtain ⟨_, hg⟩ := parseAll_some_good 10 255 _ vs hp hgood
+        rw [filter_nonempty_of_ne _ (fun g hg' => (hg g hg').1), not_any_wide 10 255 _ hg] at h
+        simp only [Decidable.not_not] at hlen
+        simp [hlen] at h
+        split at h <;> cases h
+
+
+/-- one side of a `::` (or a whole text) the model's group parser accepts: as many values as the reference has groups,
+no empty group, none beyond 16 bits -/
+theorem v6GroupsOf_some_good (t : List Char) (vs : List Nat) (hchars : ∀ c ∈ t, Rfc.isHex c = true ∨ c = ':')
+    (h : v6GroupsOf t = some vs) :
+    vs.length = (Rfc.groupsOf t).length ∧ ∀ g ∈ Rfc.groupsOf t, g ≠ [] ∧ Rfc.numOf 16 g ≤ 65535 := by
+  by_cases he : t.isEmpty = true
+  · simp only [v6GroupsOf, he, if_true] at h
+    cases h
+    simp [Rfc.groupsOf, he]
+  · simp only [v6GroupsOf, he, if_false, Bool.false_eq_true] at h
+    simp only [Rfc.groupsOf, he, split_eq_splitOn, if_false, Bool.false_eq_true]
+    have hall : t.all (fun c => Rfc.isHex c || decide (c = ':')) = true := by
+      rw [List.all_eq_true]; intro c hc
+      rcases hchars c hc with h | h <;> simp [h]
+    exact parseAll_some_good 16 65535 _ vs h (groups_good 16 Rfc.isHex ':' t (fun c hc => hex_digit c hc) hall)
+
+/-- a text containing `::` has an empty segment after its first one -/
+theorem empty_segment_of_double : ∀ r : List Char, Rfc.countDouble r ≠ 0 → [] ∈ (splitOn ':' r).tail := by
+  intro r
+  induction r with
+  | nil => intro h; simp [Rfc.countDouble] at h
+  | cons c l ih =>
+    intro h
+    by_cases hd : c = ':' ∧ l.head? = some ':'
+    · obtain ⟨rfl, hl⟩ := hd
+      obtain ⟨r, rfl⟩ := head_colon l hl
+      simp [splitOn]
+    · have hd' : c ≠ ':' ∨ l.head? ≠ some ':' := by
+        by_cases hc : c = ':'
+        · right; intro e; exact hd ⟨hc, e⟩
+        · left; exact hc
+      rw [countDouble_step c l hd'] at h
+      have := ih h
+      obtain ⟨hh, tt, e⟩ := splitOn_cons ':' l
+      rw [e] at this
+      by_cases hc : c = ':'
+      · simp only [splitOn, hc, if_true, List.tail_cons, e]
+        exact List.mem_cons_of_mem _ this
+      · simp only [splitOn, hc, if_false, e, List.tail_cons]
+        exact this
+
+/-- with two `::` and no `:::`, the text after the first `::` still contains one -/
+theorem second_double : ∀ (s acc : List Char), 2 ≤ Rfc.countDouble s → Rfc.hasTriple s = false →
+    Rfc.countDouble (Rfc.cutDouble acc s).2 ≠ 0 := by
+  intro s
+  induction s with
+  | nil => intro acc h; simp [Rfc.countDouble] at h
+  | cons c l ih =>
+    intro acc h ht
+    by_cases hd : c = ':' ∧ l.head? = some ':'
+    · obtain ⟨rfl, hl⟩ := hd
+      obtain ⟨r, rfl⟩ := head_colon l hl
+      have hr : r.head? ≠ some ':' := by
+        intro e
+        obtain ⟨r', rfl⟩ := head_colon r e
+        simp [Rfc.hasTriple] at ht
+      simp only [Rfc.cutDouble]
+      simp only [Rfc.countDouble] at h
+      rw [countDouble_step ':' r (Or.inr hr)] at h
+      omega
+    · have hd' : c ≠ ':' ∨ l.head? ≠ some ':' := by
+        by_cases hc : c = ':'
+        · right; intro e; exact hd ⟨hc, e⟩
+        · left; exact hc
+      rw [countDouble_step c l hd'] at h
+      rw [hasTriple_step c l hd'] at ht
+      rw [cutDouble_step acc c l hd']
+      exact ih _ h ht
+
+/-- **IPv6: a text the reference calls bad — the wrong number of groups, a group beyond 16 bits, a `::` that would
+stand for no group, more than one `::` — is refused** -/
+theorem v6_reference_bad (s : List Char) (h : Rfc.parseV6 s = .bad) : parseV6 s = none := by
+  cases hp : parseV6 s with
+  | none => rfl
+  | some vs =>
+    exfalso
+    simp only [Rfc.parseV6] at h
+    split at h
+    · cases h
+    · rename_i hchars
+      have hchars' : ∀ c ∈ s, Rfc.isHex c = true ∨ c = ':' := by
+        intro c hc
+        simpa using List.all_eq_true.mp (all_chars _ _ _ hchars) c hc
+      split at h
+      · cases h
+      · rename_i htriple
+        have htriple' : Rfc.hasTriple s = false := by
+          cases hb : Rfc.hasTriple s with
+          | false => rfl
+          | true => exact absurd hb htriple
+        split at h
+        · -- no `::`
+          rename_i hcount
+          simp only [parseV6, countDouble_zero_find s [] hcount] at hp
+          cases hv : v6GroupsOf s with
+          | none => simp [hv] at hp
+          | some front =>
+            simp only [hv] at hp
+            split at hp
+            · cases hp
+            · rename_i hlen
+              simp only [Decidable.not_not] at hlen
+              obtain ⟨hl, hg⟩ := v6GroupsOf_some_good s front hchars' hv
+              have hsne : s.isEmpty = false := by
+                cases s with
+                | nil => have h0 : front.length = 0 := by simpa [Rfc.groupsOf] using hl
+                         omega
+                | cons _ _ => rfl
+              have hgo : Rfc.groupsOf s = Rfc.split ':' s := by simp [Rfc.groupsOf, hsne]
+              rw [hgo] at hl hg
+              rw [filter_nonempty_of_ne _ (fun g hg' => (hg g hg').1), not_any_wide 16 65535 _ hg] at h
+              have h8 : (Rfc.split ':' s).length = 8 := by omega
+              simp [h8] at h
+              split at h <;> cases h
+        · -- one `::`
+          rename_i hcount
+          cases hcut : Rfc.cutDouble [] s with
+          | mk l r =>
+            have hfind : findDouble [] s = some (l, r) := by
+              rw [countDouble_pos_find s [] (by omega), hcut]
+            have hmem := cutDouble_mem s []
+            rw [hcut] at hmem
+            have hl : ∀ c ∈ l, Rfc.isHex c = true ∨ c = ':' := by
+              intro c hc; rcases hmem.1 c hc with h' | h'
+              · cases h'
+              · exact hchars' c h'
+            have hr : ∀ c ∈ r, Rfc.isHex c = true ∨ c = ':' := fun c hc => hchars' c (hmem.2 c hc)
+            simp only [parseV6, hfind] at hp
+            cases hvl : v6GroupsOf l with
+            | none => simp [hvl] at hp
+            | some front =>
+              cases hvr : v6GroupsOf r with
+              | none => simp [hvl, hvr] at hp
+              | some back =>
+                simp only [hvl, hvr] at hp
+                split at hp
+                · cases hp
+                · rename_i hmany
+                  obtain ⟨hll, hlg⟩ := v6GroupsOf_some_good l front hl hvl
+                  obtain ⟨hrl, hrg⟩ := v6GroupsOf_some_good r back hr hvr
+                  simp only [hcut] at h
+                  have hw : ((Rfc.groupsOf l ++ Rfc.groupsOf r).any fun g => decide (Rfc.numOf 16 g > 65535)) = false :=
+                    not_any_wide 16 65535 _ (fun g hg => by
+                      rcases List.mem_append.mp hg with h' | h'
+                      · exact hlg g h'
+                      · exact hrg g h')
+                  rw [hw] at h
+                  have hm : ¬ (Rfc.groupsOf l).length + (Rfc.groupsOf r).length > 7 := by omega
+                  simp only [hm, if_false] at h
+                  split at h
+                  · cases h
+                  · simp at h
+                    split at h <;> cases h
+        · -- two or more `::`
+          rename_i hc0 hc1
+          have hc2 : 2 ≤ Rfc.countDouble s := by
+            have := Nat.pos_of_ne_zero (fun e => hc0 e)
+            rcases Nat.lt_or_ge (Rfc.countDouble s) 2 with h' | h'
+            · exact absurd (by omega) hc1
+            · exact h'
+          have hfind : findDouble [] s = some (Rfc.cutDouble [] s) := countDouble_pos_find s [] (by omega)
+          have h2 := second_double s [] (by omega) htriple'
+          cases hcut : Rfc.cutDouble [] s with
+          | mk l r =>
+            rw [hcut] at hfind h2
+            simp only at h2
+            simp only [parseV6, hfind] at hp
+            cases hvr : v6GroupsOf r with
+            | none => cases hvl : v6GroupsOf l <;> simp [hvl, hvr] at hp
+            | some back =>
+              have hrne : r.isEmpty = false := by
+                cases r with
+                | nil => simp [Rfc.countDouble] at h2
+                | cons _ _ => rfl
+              simp only [v6GroupsOf, hrne, if_false, Bool.false_eq_true] at hvr
+              have hmem : [] ∈ splitOn ':' r := List.mem_of_mem_tail (empty_segment_of_double r h2)
+              rw [parseAll_none_of_mem 16 65535 _ [] hmem rfl] at hvr
+              cases hvr
+
+/-! the reference calls these bad; the model refuses them (five groups, an octet of three digits, 256, seven and nine
+groups, a group of five digits, a `::` between eight groups, two `::`) -/
+example : Rfc.parseMac "00:11:22:33:44".toList = .bad ∧ Rfc.parseMac "00:11:22:33:44:100".toList = .bad ∧
+    Rfc.parseV4 "1.2.3".toList = .bad ∧ Rfc.parseV4 "1.2.3.256".toList = .bad ∧
+    Rfc.parseV6 "1:2:3:4:5:6:7".toList = .bad ∧ Rfc.parseV6 "1:2:3:4:5:6:7:8:9".toList = .bad ∧
+    Rfc.parseV6 "1:2:3:4:5:6:7:10000".toList = .bad ∧ Rfc.parseV6 "1:2:3:4::5:6:7:8".toList = .bad ∧
+    Rfc.parseV6 "1::2::3".toList = .bad := by decide
+
+example : parseMac "00:11:22:33:44:100".toList = none := mac_reference_bad _ (by decide)
+example : parseV4 "1.2.3.256".toList = none := v4_reference_bad _ (by decide)
+example : parseV6 "1:2:3:4::5:6:7:8".toList = none := v6_reference_bad _ (by decide)
+example : parseV6 "1::2::3".toList = none := v6_reference_bad _ (by decide)
 
 end P2sh.Props.C18
